@@ -116,4 +116,10 @@ theorem source_has_repaired_structure :
     (∃ t ∈ Gen.runTries.getLast?, "self._close_socket" ∈ t.2.2 ∧ "selector.close" ∈ t.2.2) := by
   decide
 
+/-- The model's `closeSocket` closes the socket unconditionally; in the source that is true only because
+    `close()` sits in the `finally` of the `try` around `shutdown()` (finding D12: after a connection reset
+    `shutdown()` raises ENOTCONN, and the pinned code skipped the `close()` that followed it).  Re-extracted
+    from `/repo/lomond/session.py` on every run. -/
+theorem close_reached_when_shutdown_fails : Gen.closeAfterFailedShutdown = true := by decide
+
 end Lomond.C13
